@@ -3,7 +3,8 @@
    only by the sanitizer runs of the correspondence check (see DESIGN.md: partial by nature).                                 *)
 Require Import V.Lib.Base V.Lib.Calls V.Lib.Contract.
 Require V.C09.Model V.C04.BufSafe V.C04.Model.
-Require V.C10.Model V.C10.ProofsContract.
+Require V.C10.Model V.C10.ProofsContract V.C10.ProofsFuel.
+Require V.C01.Read V.C03.ProofsContract.
 Local Open Scope Z_scope.
 
 (* Index safety and termination of the read buffer for arbitrary bytes (NUL, CR/LF mixes, ...), arbitrary operation
@@ -26,6 +27,22 @@ Theorem c04_text_contract : forall t,
    steps_closed (V.C10.ProofsContract.delivered (V.C10.Model.read_text t)) = true).
 Proof. exact V.C10.ProofsContract.contract_all. Qed.
 Print Assumptions c04_text_contract.
+
+Theorem c04_text_no_fuel_exhaustion : forall t c, V.C10.Model.read_text t <> V.C10.Model.RErr (-1) c.
+Proof. exact V.C10.ProofsFuel.no_fuel_exhaustion. Qed.
+Print Assumptions c04_text_no_fuel_exhaustion.
+
+(* aspif reader: the same for EVERY byte string (both read modes agree by c01_modes); an exhausted loop would be the only source
+   of error line 0, and never happens; every reported line lies inside the text. *)
+Theorem c04_aspif_contract : forall t,
+  contract_ok (fst (V.C01.Read.read_all t)) = true /\
+  (forall cs, V.C01.Read.read_all t = (cs, V.C01.Read.Ok) -> steps_closed cs = true) /\
+  (forall cs, V.C01.Read.read_all t <> (cs, V.C01.Read.Err 0)).
+Proof.
+  intro t. split; [exact (V.C03.ProofsContract.reader_contract t)|].
+  split; [exact (V.C03.ProofsContract.reader_steps_closed t) | exact (V.C03.ProofsContract.no_fuel_exhaustion t)].
+Qed.
+Print Assumptions c04_aspif_contract.
 
 (* the contract predicate is not vacuous: it rejects a directive outside a step and a zero literal *)
 Example c04_contract_discriminates :
